@@ -8,6 +8,11 @@ CLAIMED = {
    note="Trusted: Coq kernel + vm_compute + primitive floats; Reals axioms (sig_forall_dec, sig_not_dec, functional_extensionality_dep) for the R theorems; translator (validated on an exhaustive grid each run); harness; libm pow/log/EPS**(1/scale) as oracles with per-run certificates. CStepGenerator's num_steps formula and spiral ratio are checked by the harness against the closed form, not proved. Float rounding of the sequences is tied (bit-exact) but not proved.",
    technique="Coq proof (lia over translated Z tables; Reals) + translator + bit-exact vm_compute correspondence",
    design="4/C10"),
+ 'C13': dict(
+   text="Machine-checked proof (Coq 8.16.1) about an executable Gallina model of dea3 that is polymorphic in the arithmetic: over R (EPS, TINY >= 0 as parameters) exact recovery of L from L + a q^k outside the guards, the exact miss 1/(s+TINY) - 1/s with the real TINY, non-negativity of the error estimate for all inputs and branches; for any arithmetic (hence binary64) elementwise treatment of arrays, length preservation, 'symmetric only trims', totality of the guard. The same definitions instantiated with Coq primitive floats are compared bit-for-bit with numdifftools.extrapolation.dea3 on generated triples (incl. NaN/inf/subnormals/ties) each run.",
+   note="Trusted: Coq kernel + vm_compute + primitive floats; Reals axioms; harness. The rounding clause ('up to a small multiple of eps times conditioning') and finiteness for moderate floats are explored by an exact-rational sweep (thorough tier / on breakage), not proved. Input immutability and 'raises nothing' are observed by the harness.",
+   technique="Coq proof (Reals, polymorphic model) + bit-exact vm_compute correspondence on primitive floats",
+   design="4/C13"),
 }
 REASON_TODO = "not claimed yet: the Coq model, theorems and correspondence for this property are still being built (see DESIGN.md section 8 for the order)"
 def main():
